@@ -756,6 +756,52 @@ func directC04(tt *testing.T, tape *core.Tape, tier string, r *RunResult) {
 			}
 		}
 	}
+	// ---- live: the transport fails before any response header (Do returns
+	// an error): never a clean end, whatever the error wraps
+	for _, de := range []struct {
+		name string
+		err  error
+	}{
+		{"eof", io.EOF}, // net/http: Post "...": EOF when the server drops the connection
+		{"unexpected-eof", io.ErrUnexpectedEOF},
+		{"conn-reset", errors.New("read tcp 10.0.0.1:443: connection reset by peer")},
+		{"goaway", errors.New("http2: server sent GOAWAY and closed the connection")},
+	} {
+		p := *rec.plan
+		p.K.DoErr = de.err
+		sc2 := *rec.sc
+		sc2.Calls = []*CallPlan{&p}
+		w, st, panics := subRun(&sc2, core.ReplayTape(nil))
+		deliveries++
+		r.Steps += w.S.Steps
+		where := "HTTPClient.Do fails with " + de.name
+		if len(panics) > 0 {
+			addV("do-failure/panic", where+": "+panics[0])
+			continue
+		}
+		if st != core.Done {
+			addV("do-failure/hang", where+": "+w.hangReport())
+			continue
+		}
+		o := w.Obs[0]
+		r.Probes["do_failures"]++
+		if len(o.Recv) > 0 {
+			addV("do-failure/messages-delivered", where)
+		}
+		if !o.FinalSet || o.Final == nil {
+			addV("do-failure/success", where+": the call reported a clean, successful end although no response ever arrived")
+		} else {
+			var ce *connect.Error
+			if !errors.As(o.Final, &ce) || ce.Code() == 0 {
+				addV("do-failure/uncoded-error", where+fmt.Sprintf(": %v", o.Final))
+			}
+		}
+		for _, op := range append(append([]OpRec{}, o.Ops...), o.OpsRcv...) {
+			if (op.Op == "recv" || op.Op == "recvmore") && op.Err != nil && errors.Is(op.Err, io.EOF) {
+				addV("do-failure/receive-reports-eof", where+fmt.Sprintf(": Receive returned an error wrapping io.EOF (%v), which callers read as the end of the stream", op.Err))
+			}
+		}
+	}
 	// ---- live: the uplink fails after k bytes (sampled offsets): the handler's
 	// request reads break mid-call while the real client is running
 	if len(rec.reqBody) > 0 && rec.plan.HErr == nil {
